@@ -218,6 +218,9 @@ def end_to_end(spec, part):
             sim = models.dt_sim(tag=rnd.choice(("DTU", "MSU", "DSN")), rnd=rnd, style=style)
         else:
             sim = models.es_sim(rnd=rnd, style=style)
+        if port == 502 and rnd.random() < 0.6:
+            sim.mbap_len_bug = rnd.choice(("request", "bytecount"))     # known GoodWe quirk: the validator ignores that field on purpose
+            part.count("tcp_wrong_mbap_length")
         res = {}
 
         async def flow(loop):
@@ -263,6 +266,39 @@ def end_to_end(spec, part):
         part.see(f"e2e|{fam}|{port}|{style}")
 
 
+def dt_pair(spec, part):
+    """documented per-model table: DT grid_export_limit is Long@40328 on single-phase and Integer@40336 on three-phase models; with one
+    object of each kind alive in the process each must still read ITS documented registers."""
+    g = env.goodwe()
+    rnd = random.Random(spec["seed"])
+    for i in range(spec["n"]):
+        simA, simB = models.dt_sim("invA", tag=rnd.choice(("DSN", "MSU", "NSU"))), models.dt_sim("invB", tag=rnd.choice(("DTU", "DTS", "DTN")))
+        for sim in (simA, simB):
+            for a in range(40326, 40340):
+                sim.regs[a] = rnd.randrange(1, 0xFFFF)
+        order = rnd.choice(("AB", "BA"))
+        out = {}
+
+        async def flow(loop):
+            A, B = g.DT("invA", 8899, 0, 1, 0), g.DT("invB", 8899, 0, 1, 0)
+            for x in order:
+                await (A if x == "A" else B).read_device_info()
+            out["A"] = await A.read_setting("grid_export_limit")
+            out["B"] = await B.read_setting("grid_export_limit")
+
+        run = engine.run_custom({("invA", 8899): simA, ("invB", 8899): simB}, flow)
+        part.evaluations += 1
+        part.count("dt_phase_pairs")
+        part.see(f"dtpair|{order}")
+        wantA = rs.u(simA.get_bytes(40328, 2))
+        wantB = rs.u(simB.get_bytes(40336, 1))
+        if run.stop or run.error is not None or out.get("A") != wantA or out.get("B") != wantB:
+            part.violate("C12/DT/setting-read-from-foreign-registers",
+                         f"single-phase + three-phase DT objects (device info order {order}): grid_export_limit read as A={out.get('A')} "
+                         f"B={out.get('B')}, documented registers hold A(Long@40328)={wantA} B(Integer@40336)={wantB} {run.stop or run.error or ''}",
+                         {"dtpair": True, "seed": spec["seed"], "i": i})
+
+
 def plan(tier, seed):
     specs = []
     shards = 2 if tier == "quick" else 8
@@ -274,6 +310,7 @@ def plan(tier, seed):
                           "seed": f"{seed}:C12:{fam}:{port}:{sh}"})
     for i in range(2 if tier == "quick" else 8):
         specs.append({"mode": "e2e", "seed": f"{seed}:C12:e2e:{i}", "n": 60 if tier == "quick" else 600})
+    specs.append({"mode": "dtpair", "seed": f"{seed}:C12:dtpair", "n": 20 if tier == "quick" else 200})
     return specs
 
 
@@ -281,6 +318,8 @@ def run_shard(spec):
     part = Part()
     if spec["mode"] == "direct":
         direct(spec, part)
+    elif spec["mode"] == "dtpair":
+        dt_pair(spec, part)
     else:
         end_to_end(spec, part)
     return part
@@ -289,7 +328,9 @@ def run_shard(spec):
 def replay(case):
     g = env.goodwe()
     part = Part()
-    if case.get("e2e"):
+    if case.get("dtpair"):
+        dt_pair({"seed": case["seed"], "n": case["i"] + 1}, part)
+    elif case.get("e2e"):
         end_to_end({"seed": case["seed"], "n": case["i"] + 1}, part)
     else:
         rl = rs.ReadLog(g)
